@@ -538,11 +538,13 @@ func fieldValueAt(p *Path, r *Term, path []string, upTo int, depth int) *Term {
 // c14SortFlag: the store caches "the buffer is sorted" in a bool field so that the sort routine can return at once.
 // The cache is invisible (it is excluded from the observable write sets) only if it can never claim sortedness
 // wrongly — a typestate obligation:
-//   (a) the sort routine skips sorting only under flag == true and raises the flag only after sort.Ints(whole buffer);
-//   (b) outside the sort and compaction routines, every path that appends to or overwrites the buffer lowers the flag
-//       on that path, or shows evidence that sortedness is kept: the flag was already false, the buffer was empty
-//       before a single append, or the appended index was compared with the last element;
-//   (c) the flag is raised elsewhere only together with emptying the buffer (Clear) or in a constructor.
+//
+//	(a) the sort routine skips sorting only under flag == true and raises the flag only after sort.Ints(whole buffer);
+//	(b) outside the sort and compaction routines, every path that appends to or overwrites the buffer lowers the flag
+//	    on that path, or shows evidence that sortedness is kept: the flag was already false, the buffer was empty
+//	    before a single append, or the appended index was compared with the last element;
+//	(c) the flag is raised elsewhere only together with emptying the buffer (Clear) or in a constructor.
+//
 // Copy/Clear coverage of the field is C14-D2 / C15-D1 like for any other field.
 func c14SortFlag(c *Ctx, pr *paginatedRoles) {
 	const rule = "C14-D1"
